@@ -19,6 +19,7 @@ func init() {
 		Assumptions: []string{"sort.Search(n, f) returns an index in [0, n]; Collection.List is sorted by id (C01 R01.4)"},
 		Run:         runC15,
 		Controls: []Control{
+			{Name: "token-alphabets-differ", File: "pkg/trait/vendingpb/pages.go", Old: "\t\treturn base64.StdEncoding.EncodeToString(tokenBytes), nil", New: "\t\treturn base64.URLEncoding.EncodeToString(tokenBytes), nil", Expect: "R15.8"},
 			{Name: "waste-token-shadowed", File: "pkg/trait/wastepb/model_server.go", Old: "\t\tstartIndex, _ = strconv.Atoi(pageToken)", New: "\t\tstartIndex, _ := strconv.Atoi(pageToken)", Expect: "R15.4"},
 			{Name: "remove-upper-cap", File: "pkg/trait/hailpb/pages.go", Old: "\tif pageSize > maxPageSize {\n\t\treturn maxPageSize\n\t}\n", New: "", Expect: "R15.1"},
 			{Name: "search-not-strict", File: "pkg/trait/publicationpb/model_server.go", Old: "\t\t\treturn sortedItems[i].Id > lastKey", New: "\t\t\treturn sortedItems[i].Id >= lastKey", Expect: "R15.4"},
@@ -51,6 +52,8 @@ func runC15(c *an.Ctx) {
 	// the handlers that do not sort themselves binary-search the listing by `id > lastKey` (byte order): that is
 	// only right if Collection.List hands the items over in ascending byte order of their ids
 	r014(c, "R15.7")
+	r158(c)
+	c.Min("R15.8", 4)
 	c.Min("R15.7", 1)
 	c.Min("R15.1", 8)
 	c.Min("R15.2", 10)
@@ -1020,4 +1023,52 @@ func r15waste(c *an.Ctx) {
 		}
 	})
 	c.Check(okTotal, "R15.5", hn+"|total_size is the number of records", h.Pos(), "", "total_size is not the model's record count")
+}
+
+// r158: a page token is decoded with the encoding it was produced with: in every package that has the pair,
+// encodePageToken and decodePageToken use the same base64 alphabet (the server must accept the tokens it hands out).
+func r158(c *an.Ctx) {
+	const rule = "R15.8"
+	byPkg := map[string]map[string]string{}
+	var pos = map[string]ssa.Instruction{}
+	for _, fn := range c.Prog.FuncsIn("pkg/trait") {
+		if c.Prog.IsGenerated(fn.Pos()) || (fn.Name() != "encodePageToken" && fn.Name() != "decodePageToken") {
+			continue
+		}
+		for _, f := range append(an.WithClosures(fn), an.TransparentCalleesOf(fn, 1)...) {
+			an.Instrs(f, func(in ssa.Instruction) {
+				call, ok := in.(*ssa.Call)
+				if !ok {
+					return
+				}
+				n := an.CalleeName(call)
+				if n != "(*encoding/base64.Encoding).EncodeToString" && n != "(*encoding/base64.Encoding).DecodeString" {
+					return
+				}
+				enc := "?"
+				for _, s0 := range an.Sources(call.Call.Args[0]) {
+					if u, isU := s0.(*ssa.UnOp); isU {
+						if g, isG := u.X.(*ssa.Global); isG {
+							enc = g.Pkg.Pkg.Path() + "." + g.Name()
+						}
+					}
+				}
+				pk := fn.Package().Pkg.Path()
+				if byPkg[pk] == nil {
+					byPkg[pk] = map[string]string{}
+				}
+				byPkg[pk][fn.Name()] = enc
+				pos[pk+fn.Name()] = in
+			})
+		}
+	}
+	for _, pk := range an.SortedKeys(byPkg) {
+		m := byPkg[pk]
+		e, d := m["encodePageToken"], m["decodePageToken"]
+		if e == "" || d == "" {
+			continue
+		}
+		c.Check(e == d && e != "?", rule, an.ModRel(pk)+"|tokens are decoded with the alphabet they are encoded with", pos[pk+"encodePageToken"].Pos(), e,
+			"encodePageToken uses "+e+" and decodePageToken "+d+": for names whose token bytes contain the characters on which the alphabets differ the server hands out a next_page_token that it then rejects itself, and the listing stops part way through")
+	}
 }
